@@ -1,5 +1,6 @@
 import Driver.Util
 import ZvbiModel.Pdc.Model
+import ZvbiModel.Pdc.Errno
 /-!
 # Model driver for component `pdc` (C14); line protocol documented in harness/pdc_harness.c
 -/
@@ -106,11 +107,21 @@ def showWin : Option (Int × Int) → String
   | some (b, e) => s!"ok {b} {e}"
   | none => "ok false"
 
+/-- errno before every call (harness: `errno = E0`) -/
+def E0 : Int := 4242
+
+def isOp (op : String) : Bool :=
+  ["limits", "settz", "valid", "lto", "ltowin", "totime", "win", "vlto", "vltowin", "ltz", "pty", "errnos", "wdtest"].contains op
+
 def step (st : St) (ws : List String) : St × String :=
   let cfg := Generated.cfg
   match ws with
   | ["limits"] =>
     (st, s!"ok 8 {TIME_MIN} {TIME_MAX} {INT_MIN} {INT_MAX} {PIL_TIMER_CONTROL} {PIL_INHIBIT_TERMINATE} {PIL_INTERRUPTION} {PIL_CONTINUE} {PIL_NSPV}")
+  | ["errnos"] =>
+    (st, s!"ok {Generated.errInvalidPil} {Generated.errNoTime} {Generated.eOverflow} {Generated.eNoMem} {Generated.versionMinor}")
+  | ["wdtest", k] =>
+    if k == "hang" || k == "abort" then (st, s!"ok watchdog {k}") else (st, "rej parse")
   | ["settz", v] =>
     if v == "unset" then ({ st with env := none }, "ok")
     else match parseTz v with
@@ -121,7 +132,7 @@ def step (st : St) (ws : List String) : St × String :=
      | some pil => (st, s!"ok {if pilIsValidDate pil then 1 else 0}")
      | none => (st, "rej parse"))
   | [op, p, s, e, n, i] =>
-    if op == "lto" || op == "ltowin" then
+    if op == "lto" || op == "ltowin" || op == "vlto" || op == "vltowin" then
       match parsePil p, parseI64 s, parseInt e, parseI64 n, parseInj i with
       | some pil, some start, some east, some now, some inj =>
         if !fitsInt east then (st, "rej parse") else
@@ -129,12 +140,36 @@ def step (st : St) (ws : List String) : St × String :=
         let w0 := mkWorld st
         if op == "lto" then
           let (r, w) := vbiPilLtoToTime cfg L w0 pil start east
-          ({ env := w.env, heap := w.heap }, s!"ok {r}" ++ tail w0 w)
-        else
+          ({ env := w.env, heap := w.heap }, s!"ok {r} errno={convErrno}" ++ tail w0 w)
+        else if op == "vlto" then
+          let (r, w) := validPilLtoToTimeE cfg L w0 pil start east
+          ({ env := w.env, heap := w.heap }, s!"ok {(toLtoRes r).toTime} errno={errnoOf r}" ++ tail w0 w)
+        else if op == "ltowin" then
           let (r, w) := vbiPilLtoValidityWindow cfg L w0 pil start east
-          ({ env := w.env, heap := w.heap }, showWin r ++ tail w0 w)
+          ({ env := w.env, heap := w.heap }, showWin r ++ s!" errno={winErrno pil E0}" ++ tail w0 w)
+        else
+          let (r, e, w) := validPilLtoValidityWindowE cfg L w0 pil start east
+          ({ env := w.env, heap := w.heap }, showWin r ++ s!" errno={e}" ++ tail w0 w)
       | _, _, _, _, _ => (st, "rej parse")
-    else if op == "limits" || op == "settz" || op == "valid" || op == "totime" || op == "win" then (st, "rej parse")
+    else if op == "ltz" || op == "pty" then
+      -- [op, start, tz, zone, now, inj]
+      match parseI64 p, parseTz s, parseZone e, parseI64 n, parseInj i with
+      | some start, some tz, some zone, some now, some inj =>
+        let L := mkLibc inj now zone
+        let w0 := mkWorld st
+        if op == "ltz" then
+          let en := localtimeTzErrno L w0 start tz
+          match localtimeTz L w0 start tz with
+          | (none, _, w) => ({ env := w.env, heap := w.heap }, s!"ok 0 errno={en}" ++ tail w0 w)
+          | (some tm, old, w) =>
+            let (rok, w) := restoreTz L w old tz.isSome
+            ({ env := w.env, heap := w.heap },
+             s!"ok 1 {tm.year} {tm.mon} {tm.mday} {tm.hour} {tm.min} {tm.sec} {tm.isdst} errno={en} r={if rok then 1 else 0}" ++ tail w0 w)
+        else
+          let (r, w) := vbiPtyValidityWindow L w0 start tz
+          ({ env := w.env, heap := w.heap }, showWin r ++ s!" errno={vbiPtyValidityWindowErrno L w0 start tz}" ++ tail w0 w)
+      | _, _, _, _, _ => (st, "rej parse")
+    else if isOp op then (st, "rej parse")
     else (st, "rej op")
   | [op, p, s, t, z, n, i] =>
     if op == "totime" || op == "win" then
@@ -144,16 +179,15 @@ def step (st : St) (ws : List String) : St × String :=
         let w0 := mkWorld st
         if op == "totime" then
           let (r, w) := vbiPilToTime cfg L w0 pil start tz
-          ({ env := w.env, heap := w.heap }, s!"ok {r}" ++ tail w0 w)
+          ({ env := w.env, heap := w.heap }, s!"ok {r} errno={convErrno}" ++ tail w0 w)
         else
           let (r, w) := vbiPilValidityWindow cfg L w0 pil start tz
-          ({ env := w.env, heap := w.heap }, showWin r ++ tail w0 w)
+          ({ env := w.env, heap := w.heap }, showWin r ++ s!" errno={winErrno pil E0}" ++ tail w0 w)
       | _, _, _, _, _, _ => (st, "rej parse")
-    else if op == "limits" || op == "settz" || op == "valid" || op == "lto" || op == "ltowin" then (st, "rej parse")
+    else if isOp op then (st, "rej parse")
     else (st, "rej op")
   | op :: _ =>
-    if op == "limits" || op == "settz" || op == "valid" || op == "lto" || op == "ltowin" || op == "totime" || op == "win"
-    then (st, "rej parse") else (st, "rej op")
+    if isOp op then (st, "rej parse") else (st, "rej op")
   | [] => (st, "rej op")
 
 def main : IO Unit := runLoop init step
